@@ -108,6 +108,13 @@ class BaseEval:
                 consts = [x for x in t[1] if x[0] == "c" and isinstance(x[1], int)]
                 rest = [x for x in t[1] if x not in consts]
                 if len(rest) == 1 and len(consts) == 1:
+                    # arithmetic on a loop counter is index computation (offsets), not a base conversion
+                    if rest[0][0] == "n" and FORMAL_BASE.get((self.f.name, rest[0][1])) is None and self._loop_var_base(rest[0][1]) is not None:
+                        return None
+                    if rest[0][0] == "b":
+                        r0 = getattr(self, "benv_src", {}).get(rest[0][1])
+                        if r0 == "loop":
+                            return None
                     b = self._b(rest[0], at)
                     k = consts[0][1]
                     return _shift(b, k)
@@ -133,6 +140,8 @@ class BaseEval:
                     eb = self._b(("elem_of", it), at)
                     if tgt[0] == "b" and eb is not None:
                         self.benv = getattr(self, "benv", {})
+                        self.benv_src = getattr(self, "benv_src", {})
+                        self.benv_src[tgt[1]] = "loop" if (it[0] == "call" and it[1] == "builtins.range") else "seq"
                         self.benv[tgt[1]] = eb
                         try:
                             return self._b(t[2][0], at)
